@@ -19,7 +19,7 @@
 //! `locs` names the locations "archive_id/offset/size"; events refer to
 //! locations by name so that TLC never sees a number above 2^31.
 //!
-//! ops: add update status remove flush flush_all save reload clear_bucket clear fill
+//! ops: add update status remove flush flush_all save reload clear_bucket clear fill bulk
 //!   fill {k,alt,loc,left}: add_entry(k) repeatedly until exactly `left` slots of
 //!   the bucket's update section remain (position found through the public
 //!   counters only: a flush inside add_entry is visible as a drop of
@@ -127,6 +127,7 @@ fn scratch() -> std::path::PathBuf {
 // ---------------------------------------------------------------------------
 struct IndexWorld {
     names: Vec<(String, u8, [u8; 9])>,
+    by_name: HashMap<String, usize>,
     by_key9: HashMap<[u8; 9], String>,
     locs: BTreeMap<String, (u16, u32, u32)>,
     loc_names: HashMap<(u16, u32, u32), String>,
@@ -152,13 +153,14 @@ impl IndexWorld {
             locs.insert(n.clone(), l);
             assert!(loc_names.insert(l, n.clone()).is_none(), "driver: location {n} collides");
         }
-        IndexWorld { names, by_key9, locs, loc_names }
+        let by_name = names.iter().enumerate().map(|(i, (n, _, _))| (n.clone(), i)).collect();
+        IndexWorld { names, by_name, by_key9, locs, loc_names }
     }
     fn key(&self, op: &Value) -> EncodingKey {
         let k = op["k"].as_str().expect("k");
         let alt = op["alt"].as_u64().unwrap_or(0);
-        let (_, _, k9) = self.names.iter().find(|(n, _, _)| n == k).unwrap_or_else(|| panic!("driver: key {k} not declared"));
-        index_key16(k9, alt)
+        let i = *self.by_name.get(k).unwrap_or_else(|| panic!("driver: key {k} not declared"));
+        index_key16(&self.names[i].2, alt)
     }
     fn loc(&self, op: &Value) -> (u16, u32, u32) {
         let l = op["loc"].as_str().expect("loc");
@@ -190,8 +192,8 @@ impl IndexWorld {
         for (b, e) in ix.iter_entries() {
             niter += 1;
             let name = self.by_key9.get(&e.key).cloned().unwrap_or_else(|| format!("?{}", hex(&e.key)));
-            if let Some((_, kb, _)) = self.names.iter().find(|(n, _, _)| *n == name)
-                && *kb != b
+            if let Some(&i) = self.by_name.get(&name)
+                && self.names[i].1 != b
             {
                 badbucket += 1;
             }
@@ -262,6 +264,22 @@ fn run_index_rt(prog: &Value, out: &Emit, rt: &tokio::runtime::Runtime) {
                 "clear" => {
                     ix.clear();
                     json!("ok")
+                }
+                "bulk" => {
+                    // add_entry for the keys <pre><from> .. <pre><from+n-1> (all declared in the universe), same location
+                    let pre = op["pre"].as_str().unwrap();
+                    let from = op["from"].as_u64().unwrap();
+                    let n = op["n"].as_u64().unwrap();
+                    let (id, off, sz) = w.loc(op);
+                    let mut res = "ok";
+                    for i in from..from + n {
+                        let k = json!({"k": format!("{pre}{i}"), "alt": op["alt"]});
+                        if ix.add_entry(&w.key(&k), id, off, sz).is_err() {
+                            res = "err";
+                            break;
+                        }
+                    }
+                    json!(res)
                 }
                 "fill" => {
                     let key = w.key(op);
@@ -490,6 +508,40 @@ fn random_index(rng: &mut Rng, len: usize, kind: u64) -> Value {
     json!({"sys": "index", "keys": keys, "locs": locs, "ops": ops})
 }
 
+/// A sorted section around the 64 KiB boundary where the update section of the file is aligned
+/// (40 bytes of headers + 18 bytes per entry: 3638 entries end below it, 3639 above), observed at few points.
+fn big_index(rng: &mut Rng) -> Value {
+    let b = rng.below(16);
+    let n = *rng.pick(&[3637u64, 3638, 3639, 3640, 3700, 7279, 7280]);
+    let extra = 6u64;
+    let mut keys = Map::new();
+    for i in 0..n + extra {
+        keys.insert(format!("q{i}"), json!(b));
+    }
+    let locs: Map<String, Value> = LOCS.iter().map(|(a, b)| ((*a).to_string(), json!(b))).collect();
+    let mut ops = vec![json!({"op": "bulk", "pre": "q", "from": 0, "n": n, "alt": 0, "loc": "L1"})];
+    // leave the bulk in the sorted section or partly in the update section
+    ops.push(if rng.chance(1, 2) { json!({"op": "flush", "b": b}) } else { json!({"op": "save"}) });
+    ops.push(json!({"op": "reload"}));
+    for _ in 0..12 {
+        let old = format!("q{}", rng.below(n));
+        let new = format!("q{}", n + rng.below(extra));
+        let loc = LOCS[rng.below(8) as usize].0;
+        let alt = rng.below(2);
+        ops.push(match rng.below(10) {
+            0..=1 => json!({"op": "add", "k": new, "alt": alt, "loc": loc}),
+            2..=3 => json!({"op": "update", "k": old, "alt": alt, "loc": loc}),
+            4..=5 => json!({"op": "remove", "k": old, "alt": alt}),
+            6 => json!({"op": "flush", "b": b}),
+            7 => json!({"op": "save"}),
+            _ => json!({"op": "reload"}),
+        });
+    }
+    ops.push(json!({"op": "save"}));
+    ops.push(json!({"op": "reload"}));
+    json!({"sys": "index", "keys": keys, "locs": locs, "ops": ops})
+}
+
 fn random_res(rng: &mut Rng, len: usize, big: bool) -> Value {
     let nk = 8 + rng.below(72);
     let names: Vec<String> = (0..nk).map(|i| format!("k{i}")).chain(["z".to_string()]).collect();
@@ -532,7 +584,7 @@ fn main() {
     }
     let nri = arg_u64(&args, "--random-index", 0);
     let nrr = arg_u64(&args, "--random-res", 0);
-    if nri + nrr > 0 {
+    if nri + nrr + arg_u64(&args, "--big", 0) + arg_u64(&args, "--long", 0) > 0 {
         let mut rng = Rng::new(seed_from_env());
         let len = arg_u64(&args, "--len", 300) as usize;
         let longlen = arg_u64(&args, "--long-len", 3000) as usize;
@@ -546,6 +598,10 @@ fn main() {
         };
         for _ in 0..nlong {
             let p = random_index(&mut rng, longlen, 0);
+            push(p, &mut programs);
+        }
+        for _ in 0..arg_u64(&args, "--big", 0) {
+            let p = big_index(&mut rng);
             push(p, &mut programs);
         }
         for _ in 0..nri {
